@@ -96,6 +96,10 @@ func cEnts(es []Ent) string {
 		if i > 0 {
 			sb.WriteString("; ")
 		}
+		if e.I < 0 {
+			// never an input: the code under test produced an entry with a negative index
+			panic(fmt.Sprintf("entry with negative index %d in a vector / matrix row produced by the code under test", e.I))
+		}
 		fmt.Fprintf(&sb, "e %d %s", e.I, cf(float64(e.V)))
 	}
 	sb.WriteString("]")
